@@ -18,6 +18,13 @@ def parseShown (s : String) : Option MBox :=
 def parseShownList (s : String) : Option (List MBox) :=
   if s == "" then some [] else (s.splitOn ",").mapM parseShown
 
+/-- is the address in the class the grammar round trip is proved for (`Props/C17.lean`: `mailbox_address_roundtrip`)? -/
+def inClass (a : List Char) : Bool :=
+  match Address.splitLastAt [] a with
+  | some (u, d) => addrClassB u d
+  | none => false
+def clsNote (l : List MBox) : String := if l.all (fun m => inClass m.email) then "ok cls=proved" else "ok cls=checked-only"
+
 def sameMailbox (a b : MBox) : Bool := normName a.name == normName b.name && a.email == b.email
 
 /-- `mbox <name|-> <addr> | <display> <parse-back> <serde> <wire>` -/
@@ -70,7 +77,7 @@ def mboxOp : List String → String
                   if dec != some expName then propfail "display-name-does-not-decode-to-the-name"
                   else
                     let md := match show1 m with | some t => s!"ok:{charsHex t}" | none => "fmterr"
-                    if md == disp then "ok" else s!"MISMATCH display model={md}"
+                    if md == disp then clsNote [m] else s!"MISMATCH display model={md}"
               | _ => propfail "header-section-does-not-parse-as-one-field"
           | _ => "BADLINE"
     | _, _ => "BADLINE"
@@ -95,7 +102,7 @@ def mboxlistOp : List String → String
           if l.length != ms.length || !(l.zip ms).all (fun (a, b) => sameMailbox a b) then propfail "list-reads-back-different"
           else
             let md := match showList ms with | some t => s!"ok:{charsHex t}" | none => "fmterr"
-            if md == disp then "ok" else s!"MISMATCH listdisplay model={md}"
+            if md == disp then clsNote ms else s!"MISMATCH listdisplay model={md}"
         | none => "BADLINE"
       | _ => propfail "displayed-list-does-not-parse"
   | l => if l.contains "PANIC" then propfail "panic" else "BADLINE"
@@ -214,7 +221,8 @@ def buildOp : List String → String
       let hd := (ofHex head).getD []
       if res.startsWith "ok" && !HeaderReader.linesOk true 998 hd then propfail "header-line-malformed" else
       let m := showOutcome (run permissiveEnv prog)
-      if m == implS then "ok" else s!"MISMATCH build model={m}"
+      let mboxes := prog.filterMap fun | .add _ mb => some mb | _ => none
+      if m == implS then clsNote mboxes else s!"MISMATCH build model={m}"
   | l => if l.contains "PANIC" then propfail "panic" else "BADLINE"
 
 end LV.Driver.C17
